@@ -47,19 +47,7 @@ pub broadcast axiom fn axiom_char_cmp(a: char, b: char)
 }
 broadcast use {jt::axiom_im_decreases, vstd::string::group_string_axioms, vfmt::axiom_wlog_string, pl::group_pre, chs::axiom_char_obeys, chs::axiom_char_cmp, chk::axiom_char_key_model, vstd::std_specs::hash::group_hash_axioms};
 
-// ---- the documented JSON string escaping (RFC 8259 §7 + --utf8-strings), per character ----
-pub open spec fn esc(ch: char, utf8: bool) -> Seq<char> {
-    if ch == '"' { seq!['\\', '"'] } else if ch == '\\' { seq!['\\', '\\'] } else if ch == '/' { seq!['\\', '/'] }
-    else if ch == '\u{08}' { seq!['\\', 'b'] } else if ch == '\u{0c}' { seq!['\\', 'f'] } else if ch == '\n' { seq!['\\', 'n'] }
-    else if ch == '\r' { seq!['\\', 'r'] } else if ch == '\t' { seq!['\\', 't'] }
-    else if (utf8 && ' ' <= ch) || (' ' <= ch && ch <= '~') { seq![ch] }
-    else { seq!['\\', 'u'].add(hex_min4_text(ch as u64)) }
-}
-pub open spec fn esc_all(s: Seq<char>, utf8: bool) -> Seq<char>
-    decreases s.len()
-{
-    if s.len() == 0 { Seq::empty() } else { esc_all(s.drop_last(), utf8).add(esc(s.last(), utf8)) }
-}
+//@@ include lemmas/json_escape.rs
 // RFC 8259 §7: a character outside the Basic Multilingual Plane is escaped as a UTF-16 surrogate pair \\uD8xx\\uDCxx
 pub open spec fn rfc_esc(ch: char, utf8: bool) -> Seq<char> {
     let n = ch as u64;
